@@ -99,6 +99,34 @@ def _weighted(cls, o, directed):
     return cls(csr_matrix(A))
 
 
+def _check_signed(cls, o, directed, bad, label):
+    """an edge is an edge whatever the sign of its weight: edge set, edge tests, adjacency lists, neighbour relations"""
+    n = o["n"]
+    A = np.zeros((n, n))
+    for a, b in o["edges"]:
+        w = _wt(a, b) * (-1.0 if (a + b) % 2 else 1.0)
+        A[a, b] = w
+        if not directed:
+            A[b, a] = w
+    g = cls(csr_matrix(A))
+    E = [tuple(e) for e in o["edges"]]
+    edir = set(E) if directed else set(E) | {(b, a) for a, b in E}
+    got = sorted(tuple(int(x) for x in e) for e in np.asarray(g.edges).reshape(-1, 2).tolist())
+    if got != sorted(E) or g.n_edges != len(E):
+        bad.append((label + "edges of a graph with negative weights are not the edge set it was built from", {"got": got, "want": sorted(E)}, None))
+    al = g.get_adjacency_list()
+    for a in range(n):
+        if sorted(int(x) for x in al[a]) != sorted(b for x, b in edir if x == a):
+            bad.append((label + "adjacency list wrong with negative weights", {"vertex": a}, None))
+            break
+        for b in range(n):
+            if bool(g.is_edge(a, b)) != ((a, b) in edir):
+                bad.append((label + "is_edge disagrees with the edge set when weights are negative", {"pair": [a, b], "weight": A[a, b]}, None))
+                return
+    if sorted(int(v) for v in g.isolated_vertices()) != sorted(o["iso"]):
+        bad.append((label + "isolated vertices wrong with negative weights", {}, None))
+
+
 def _check_weighted(g, o, directed, bad, label):
     n = o["n"]
     E = [tuple(e) for e in o["edges"]]
@@ -206,6 +234,7 @@ def check_ug(o):
         wg = _weighted(ms.UndirectedGraph, o, False)
         _check_weighted(wg, o, False, bad, "UndirectedGraph (weighted): ")
         _check_orders(ms.UndirectedGraph, o, False, bad, "UndirectedGraph (weighted): ")
+        _check_signed(ms.UndirectedGraph, o, False, bad, "UndirectedGraph (signed weights): ")
         if o["mst"] >= 0:
             for root in range(n):
                 t = wg.minimum_spanning_tree(root)
@@ -254,6 +283,7 @@ def check_dg(o):
             bad.append(("relative_locations wrong", {}, None))
         _check_weighted(_weighted(ms.DirectedGraph, o, True), o, True, bad, "DirectedGraph (weighted): ")
         _check_orders(ms.DirectedGraph, o, True, bad, "DirectedGraph (weighted): ")
+        _check_signed(ms.DirectedGraph, o, True, bad, "DirectedGraph (signed weights): ")
     return bad
 
 
